@@ -23,7 +23,8 @@ RULE = ("documents with multi-tag operations, tag spelling variants, multi-conte
 ASSUMPTIONS = ["a Protocol stub for an async-generator method may be a plain def returning AsyncIterator; nature is compared as "
                "'what a call returns' (awaitable vs async iterator)"]
 
-TAG_VARIANTS = [["pets"], ["Pets"], ["user-admin"], ["user_admin"], ["User Admin"], ["store"]]
+TAG_VARIANTS = [["pets"], ["Pets"], ["user-admin"], ["user_admin"], ["User Admin"], ["store"], ["PETS"],
+                ["petstore"], ["petStore"], ["DataSources"], ["datasources"], ["data_sources"]]   # same tag, different word splits
 
 
 def norm_nature(sig: dict, is_protocol: bool) -> str:
